@@ -117,6 +117,8 @@ MUTANTS = [
     M('sema:alias:redeclaration-hidden', 'sema', ['C07'], 'stmt_to_asg_stmt', 'Some(asg::Alias::new(symbol_id, rhs).to_stmt())', 'Some(asg::Alias::new(context.symbol_table().lookup(name_str.as_ref()).to_symbol_id(), rhs).to_stmt())'),
     M('sema:output-decl:redeclaration-hidden', 'sema', ['C07'], 'io_declaration_statement_to_asg_stmt', 'asg::OutputDeclaration::new(symbol_id).to_stmt()', 'asg::OutputDeclaration::new(context.symbol_table().lookup(name_str.as_ref()).to_symbol_id()).to_stmt()'),
     M('sema:include:stdgates-guarded', 'sema', ['C07'], 'syntax_to_semantic', 'context.standard_library_gates(&include);', 'if context.symbol_table().lookup("h").is_err() { context.standard_library_gates(&include); }'),
+    M('sema:cast:node-dropped', 'sema', ['C08'], 'expr_to_asg_texpr', 'Some(asg::Cast::new(expr.unwrap(), typ).to_texpr())', 'Some(expr.unwrap())'),
+    M('sema:operand:indexed-bit-accepted', 'sema', ['C13'], 'gate_operand_to_asg_texpr', 'if !matches!(typ, Type::QubitArray(_)) {', 'if !matches!(typ, Type::QubitArray(_) | Type::BitArray(..)) {'),
     # ---- PARSER marker discipline
     M('parser:marker:complete-wrong-slot', 'parser', ['C01', 'C02'], 'Marker::complete', 'let idx = self.pos as usize;', 'let idx = (self.pos as usize) + 1;'),
     M('parser:marker:abandon-always-pops', 'parser', ['C01', 'C02'], 'Marker::abandon', 'if idx == p.events.len() - 1 {', 'if idx <= p.events.len() - 1 {'),
